@@ -37,7 +37,7 @@ Proof. induction ps as [|p ps IH]; simpl; [lia|]. rewrite total_app, p_ev_ns, IH
 
 Lemma run_test_ns l t' b s : total (ns t) (rs_ev (run_test w o l t' b s)) = total (ns t) (rs_ev s) + hit t t'.
 Proof.
-  unfold run_test. destruct (fold_effect w o l t' (proto b) s) as [_ [_ [_ [_ [_ [_ F7]]]]]].
+  destruct (run_test_effect w o l t' b s) as [_ [_ [_ [_ [_ [_ F7]]]]]].
   rewrite F7, total_app, flat_ns, proto_runs_once. lia.
 Qed.
 
